@@ -188,7 +188,7 @@ impl Universe {
         ];
         let native_balances = (0..accts.len()).map(|i| if i >= 10 { 0 } else { pick_amount(rng) }).collect();
         let fees = FEE_NAMES.iter().map(|n| (n.to_string(), pick_fee(rng, n))).collect();
-        let max_tx_bytes = match rng.gen_range(0..5) {
+        let max_tx_bytes = match if _profile == "proposals" { rng.gen_range(0..3) } else { rng.gen_range(0..5) } {
             0 => rng.gen_range(400..3_000),
             1 => rng.gen_range(3_000..20_000),
             _ => 1_000_000,
@@ -489,6 +489,7 @@ async fn gen_action<S: StateRead>(
                 0 => 0,
                 1 => 1,
                 2 => rng.gen_range(200..3000),
+                3 | 4 if u.profile == "proposals" || u.profile == "rollups" => [rng.gen_range(20_000..120_000), rng.gen_range(3_000..20_000), 250_000][rng.gen_range(0..3)],
                 _ => rng.gen_range(1..64),
             };
             let mut data = vec![0u8; len];
@@ -750,6 +751,8 @@ fn pick_kind(rng: &mut ChaChaRng, profile: &str) -> &'static str {
             ("validators", "validator_update") => 12,
             ("ledger", "transfer" | "fee_change" | "fee_asset_change") => 2,
             ("ibc", "ics20_withdrawal") => 12,
+            ("proposals", "rollup_data") => 4,
+            ("proposals", "fee_change" | "validator_update" | "sudo_change") => 3,
             ("ibc", "init_bridge" | "bridge_lock") => 2,
             _ => 1,
         }
@@ -781,7 +784,7 @@ pub(super) async fn generate_block_txs<S: StateRead>(
 ) -> Vec<BuiltTx> {
     let mut out = vec![];
     let mut next_nonce: std::collections::HashMap<usize, u32> = std::collections::HashMap::new();
-    let ntx = rng.gen_range(0..=10);
+    let ntx = if profile == "proposals" { rng.gen_range(2..=16) } else { rng.gen_range(0..=10) };
     for _ in 0..ntx {
         let hostile = rng.gen_bool(0.3);
         let kind = pick_kind(rng, profile);
